@@ -182,6 +182,14 @@ def shrink(mod, rec, std, status, budget=150):
             if tried >= budget:
                 break
             tried += 1
+            fixer = getattr(mod, "fix_candidate", None)
+            if fixer is not None:
+                try:
+                    cand = fixer(copy.deepcopy(cand), base)
+                except Exception:
+                    cand = None
+                if cand is None:
+                    continue
             try:
                 r = evaluate(mod, [copy.deepcopy(cand)], std)[0]
             except Exception:
@@ -299,6 +307,11 @@ def main(argv):
                 # the code misbehaves exactly as the recorded, modelled defect
                 r["status"] = "known"
                 seen_kf.add(kfid)
+                continue
+            if st == "mismatch" and kfid in open_kf and (r.get("oracle") or {}).get("ok"):
+                # inside a known-finding class the conforming behaviour is accepted as well
+                # (the code may have been repaired; the model still mirrors the defect)
+                r["status"] = "pass"
                 continue
             if st == "violation" and kfid in open_kf and r["case"].get("_kf"):
                 r["status"] = "known"
